@@ -62,6 +62,33 @@ def run(facts, rep, ctx):
     R6 = rep.rule("R12.6", "a layer write creates or replaces the whole file with the caller's bytes", floor=2)
     write_replaces(facts, rep, R6)
     write_reaches_layer(facts, rep, R6)
+    codec_round_trip(facts, rep, ctx)
+
+
+def codec_round_trip(facts, rep, ctx):
+    """Read-after-write through a compressed suffix is decompress(compress(bytes)) = bytes for the configured format.
+    The structural conditions for that are C08's (LZ10) and C09's (LZ13) rule sets -- token layout against the
+    decoder's, group accounting, and the shared match search reporting the displacement of the bytes it compared.
+    They are evaluated here as part of this property: a change that breaks them breaks read-after-write for every
+    payload long enough to reach the broken case."""
+    R8 = rep.rule("R12.8", "the configured codecs round-trip: C08 (LZ10) and C09 (LZ13) structural conditions hold for the compressors the filesystem writes with", floor=2)
+    from common import Report
+    import c08
+    import c09
+    for mod, pid, what in ((c08, "C08", "LZ10 (FE9/FE10 .cms/.cmp)"), (c09, "C09", "LZ13 (FE13-FE15 .lz)")):
+        sub = Report(pid)
+        try:
+            mod.run(facts, sub, ctx)
+            sub.finish_floors()
+        except Exception as ex:
+            rep.inconc(R8, "%s rule set could not be evaluated: %s" % (pid, ex))
+            continue
+        for v in sub.violations:
+            rep.violation(R8, v["fn"], "%s:%s" % (pid, v["key"].split("|", 1)[0] + "|" + v["key"].rsplit("|", 1)[-1]), "%s, %s: %s" % (what, v["rule"], v["msg"]), v["where"])
+        for d in sub.inconclusive[:3]:
+            rep.inconc(R8, "%s %s: %s" % (pid, d["rule"], d["reason"]))
+        if not sub.violations and not sub.inconclusive:
+            rep.ok(R8, {"codec": what, "rules": sorted(sub.rules), "instances": sum(r["instances"] for r in sub.rules.values())})
 
 
 def lookups(facts, rep, R1):
